@@ -329,8 +329,9 @@ fn structural<S: ShortGroupSignatureScheme>(em: &mut Emitter, rng: &mut Rng, sui
         em.oracle_case(&format!("{} {} verify {}", suite, si, d));
         match pres_from_value::<S>(&m) {
             Out::Ok(q) => {
-                let r = scn.verify(&q);
-                em.count(&format!("verify:{}", r.class()));
+                let (class, r) = plan_class(&q, &scn.schema, &scn.nonce);
+                em.op(plan_line(&scn.schema, &q, suite), class);
+                em.count(&format!("verify:{}:{}", r.class(), class));
                 if let Out::Panic(msg) = r {
                     let (sig, at) = site_sig("verify");
                     em.violation(&sig, format!("{}: Presentation::verify panicked at {} on a presentation with '{}': {}", suite, at, d, msg), scn.replay(json!({"suite": suite, "mutation": d, "presentation": m})));
